@@ -255,8 +255,10 @@ class DelGen(storegen.Gen):
                 self.copies(ents, then_delete=0.15)
             return
         r = self.rng.random()
-        if r < 0.30:
+        if r < 0.25:
             self.delete(ents)
+        elif r < 0.30:
+            self.deep_subtree(ents)
         elif r < 0.36:
             self.delete_foreign(ents)
         elif r < 0.46:
@@ -454,6 +456,74 @@ class DelGen(storegen.Gen):
             return
         self.count("delete the %s right after an %s copy" % (side, "id-keeping" if keep else "id-regenerating"))
         self.delete_ent(pool[0])
+
+    def deep_subtree(self, ents):
+        """a fresh chain of sections / sources (3-5 levels, a side branch now and then) whose root and whose members
+        one level down are linked from NOWHERE, while members two or more levels down are the targets of metadata
+        links / Section.link / sources-list entries from outside; then the root is deleted (any key form). Every one
+        of those links has to go although nothing near the root hints at them."""
+        rng = self.rng
+        kind = rng.choice(["section", "source"])
+        if kind == "section":
+            hosts = [e for e in ents if e.kind == "section" and len(e.path) <= 4]
+            host = rng.choice(hosts) if hosts and rng.random() < 0.5 else None
+            owner_path, cname, block = (host.path, "sections", None) if host else ([], "metadata", None)
+        else:
+            hosts = [e for e in ents if e.kind == "source" and len(e.path) <= 6]
+            host = rng.choice(hosts) if hosts and rng.random() < 0.5 else self.pick(ents, "block")
+            if host is None:
+                return
+            owner_path, cname = host.path, "sources"
+            block = host.block if host.kind == "source" else host.name
+        taken = [e.name for e in ents if e.kind == kind and e.path[:-2] == owner_path and e.path[-2] == cname]
+        free = [n for n in storegen.NAMES_PLAIN[:11] if n not in taken]
+        if not free:
+            return
+
+        def make(parent, name):
+            if kind == "section":
+                return self.do(["create_section", parent, name, "t"])
+            return self.do(["create", parent, "source", name, "t", None])
+
+        root_name = rng.choice(free)
+        if "ok" not in make(owner_path, root_name):
+            return
+        sub = "sections" if kind == "section" else "sources"
+        chain = [owner_path + [cname, root_name]]
+        for _ in range(rng.randint(2, 4)):
+            nm = rng.choice(storegen.NAMES_PLAIN[:9])
+            if "ok" not in make(chain[-1], nm):
+                return
+            if rng.random() < 0.3:
+                make(chain[-1], nm + "'")       # a sibling branch without links
+            chain.append(chain[-1] + [sub, nm])
+        deep = chain[2:]
+        if rng.random() < 0.25 and kind == "section":
+            self.do(["create_property", deep[-1], "p"])
+        linked = 0
+        if kind == "section":
+            owners = [e for e in ents if e.kind in ("block", "group", "data_array", "data_frame", "tag", "multi_tag",
+                                                    "source")]
+            rng.shuffle(owners)
+            for o in owners[:rng.randint(0, 3)]:
+                linked += "ok" in self.do(["set_role", o.path, "metadata", rng.choice(deep)])
+                self.do(["role", o.path, "metadata"])
+            outside = [e for e in ents if e.kind == "section"]
+            rng.shuffle(outside)
+            for o in outside[:rng.randint(0 if linked else 1, 2)]:
+                linked += "ok" in self.do(["set_role", o.path, "link", rng.choice(deep)])
+                self.do(["role", o.path, "link"])
+        else:
+            owners = [(o, c) for k2, c in LINK_OWNERS["source"] for o in ents if o.kind == k2 and o.block == block]
+            rng.shuffle(owners)
+            for o, c in owners[:rng.randint(1, 4)]:
+                for t in rng.sample(deep, rng.randint(1, len(deep))):
+                    linked += "ok" in self.do(["append", o.path, c, {"o": t}])
+                self.do(["list", o.path, c])
+        self.count("%s subtree with %s only two or more levels below its root" %
+                   (kind, "links from outside" if linked else "no link from outside,"))
+        self.do(["dump"])
+        self.delete_ent(storegen.Ent(kind, chain[0], root_name, block))
 
     def delete(self, ents):
         rng = self.rng
@@ -1368,10 +1438,72 @@ def _topology():
     return ops
 
 
+def deep_cases():
+    """subtree deletion where ONLY deep descendants (two or more levels below the deleted root; neither the root nor
+    one of its direct children) are link targets: metadata links, Section.link, entries of sources lists. Every
+    link into the subtree has to go with it, by every key form, for top-level and nested roots."""
+    da, da2 = B + ["data_arrays", "da"], B2 + ["data_arrays", "da"]
+    tg, grp, mt = B + ["tags", "tg"], B + ["groups", "grp"], B + ["multi_tags", "mt"]
+    base = [["create_block", "blk", "t"], ["create_block", "other", "t"],
+            ["create", B, "data_array", "da", "t", None], ["create", B2, "data_array", "da", "t", None],
+            ["create", B, "tag", "tg", "t", None], ["create", B, "group", "grp", "t", None],
+            ["create", B, "multi_tag", "mt", "t", da]]
+    top, host = ["metadata", "top"], ["metadata", "host"]
+    cases = []
+    for root_owner, root_cont, how_root in (([], "metadata", "top-level"), (host, "sections", "nested")):
+        root = root_owner + [root_cont, "top"]
+        mid = root + ["sections", "mid"]
+        leaf = mid + ["sections", "leaf"]
+        tip = leaf + ["sections", "tip"]
+        secs = base + [["create_section", [], "keep", "t"], ["create_section", [], "host", "t"],
+                       ["create_section", root_owner, "top", "t"], ["create_section", root, "mid", "t"],
+                       ["create_section", root, "mid2", "t"], ["create_section", mid, "leaf", "t"],
+                       ["create_section", leaf, "tip", "t"], ["create_property", leaf, "p"],
+                       ["create_section", [], "side", "t"], ["set_role", da2, "metadata", ["metadata", "keep"]]]
+        links = (("metadata link to a grandchild", [["set_role", da, "metadata", leaf]]),
+                 ("Section.link to a grandchild", [["set_role", ["metadata", "side"], "link", leaf]]),
+                 ("metadata links and a Section.link to a grandchild and a great-grandchild",
+                  [["set_role", da, "metadata", leaf], ["set_role", tg, "metadata", tip], ["set_role", B, "metadata", tip],
+                   ["set_role", ["metadata", "side"], "link", tip],
+                   ["set_role", ["metadata", "keep"], "link", leaf]]))
+        keys = (({"s": "top"}, "name"), ({"id": root}, "id"), ({"p": -1 if root_cont == "sections" else 2}, "index"),
+                ({"o": root}, "object"))
+        for li, (lname, lops) in enumerate(links):
+            for ki, (key, how) in enumerate(keys):
+                if li < 2 and ki != (li + (0 if root_owner else 2)) % 4:
+                    continue        # the single-link variants once per root position, with differing key forms
+                cases.append(("%s section deleted by %s, its only links from outside: %s" % (how_root, how, lname),
+                              secs + lops + [["del", root_owner, root_cont, key]]))
+    for root_owner, how_root in ((B, "top-level"), (B + ["sources", "host"], "nested")):
+        s0 = root_owner + ["sources", "s0"]
+        s1 = s0 + ["sources", "s1"]
+        s2 = s1 + ["sources", "s2"]
+        s3 = s2 + ["sources", "s3"]
+        skeep = B + ["sources", "skeep"]
+        srcs = base + [["create", B, "source", "host", "t", None], ["create", B, "source", "skeep", "t", None],
+                       ["create", root_owner, "source", "s0", "t", None], ["create", s0, "source", "s1", "t", None],
+                       ["create", s0, "source", "s1b", "t", None], ["create", s1, "source", "s2", "t", None],
+                       ["create", s2, "source", "s3", "t", None],
+                       ["append", grp, "sources", {"o": skeep}]]
+        links = (("one array's sources list holds a grandchild", [["append", da, "sources", {"o": s2}]]),
+                 ("sources lists of an array, a tag, a multi-tag and a group hold a grandchild / great-grandchild",
+                  [["append", da, "sources", {"o": s2}], ["append", da, "sources", {"o": skeep}],
+                   ["append", tg, "sources", {"o": s2}], ["append", mt, "sources", {"o": s3}],
+                   ["append", grp, "sources", {"o": s3}], ["append", grp, "sources", {"o": s2}]]))
+        keys = (({"s": "s0"}, "name"), ({"id": s0}, "id"), ({"p": -1}, "index"), ({"o": s0}, "object"))
+        for li, (lname, lops) in enumerate(links):
+            for ki, (key, how) in enumerate(keys):
+                if li == 0 and ki != (1 if root_owner == B else 3):
+                    continue
+                cases.append(("%s source deleted by %s: %s" % (how_root, how, lname),
+                              srcs + lops + [["del", root_owner, "sources", key]]))
+    return cases
+
+
 def fixed_cases():
     a = B + ["data_arrays", "a"]
     topo = _topology()
-    cases = []
+    cases = deep_cases()
     for key, how in (({"s": "a"}, "name"), ({"id": a}, "id"), ({"p": 0}, "index"), ({"p": -2}, "negative index"),
                      ({"o": a}, "object")):
         cases.append(("shared array deleted by %s" % how, topo + [["del", B, "data_arrays", key]]))
